@@ -24,7 +24,7 @@ fn build(which: &str) -> Result<String, String> {
 }
 
 fn run(bin: &str, max: &str) -> Result<String, String> {
-    let out = Command::new(bin).arg(max).output().map_err(|e| format!("{}: {}", bin, e))?;
+    let out = run_with_timeout(Command::new(bin).arg(max), 600).map_err(|e| format!("{}: {}", bin, e))?;
     if !out.status.success() {
         return Err(format!("{} exited with {:?}: {}", bin, out.status.code(), String::from_utf8_lossy(&out.stderr).chars().take(2000).collect::<String>()));
     }
